@@ -15,6 +15,7 @@ import os
 import random
 
 import vlib
+from checks import brokerlib
 
 USERS = ["alice", "bob", "carol", "dave", "erin", "frank"]
 
@@ -95,8 +96,29 @@ def check(run):
               % (json.dumps([[x["u"], "3-field" if x["m"] else "2-field"] for x in scn[0]["table"]]), scn[0].get("order"), json.dumps(e)),
               {"kind": "auth", "scenario": dict(scns[idx], queries=[{"u": e.get("u", ""), "p": e.get("p", "")}] if e["op"] == "auth" else []),
                "trace": [scn[0], e]})
+    # ---- broker level: CONNECT against the real file handler; CONNACK code, tenant, and nothing created after a refusal
+    bscns = []
+    file_scns = [x for x in scns if x["kind"] == "file" and not any(e.get("t") for e in x["table"])]
+    for x in file_scns[:: max(1, len(file_scns) // (400 if thorough else 40))]:
+        ops = []
+        for i, q in enumerate(x["queries"][:14]):
+            ops.append({"op": "connect", "c": 1 + i, "n": 1, "client": "cl%d" % i, "user": q["u"], "pass": q["p"], "ka": 600,
+                        "will": {"t": ["w", "x"], "p": "will-%d" % i, "q": 0, "r": False}})
+            if i % 3 == 2:
+                ops.append({"op": "sub", "c": 1 + i, "id": 1, "fs": [{"f": ["w", "#"], "q": 0}]})
+        ops.append({"op": "quiesce"})
+        bscns.append({"nodes": [1], "auth": [x["table"][j] for j in x["order"]], "ops": ops})
+    btpath, crashes = brokerlib.execute(run, bscns, "c16b", shards=12)
+    if crashes:
+        raise vlib.Inconclusive("broker driver died: %s" % crashes[0][2][-2000:])
+    bnev, bnscn, bvalidated, brejected, btstates = brokerlib.validate(run, "C16", bscns, btpath, v)
+    run.log("broker level: validated %d of %d scenarios (%d events)" % (bvalidated, len(bscns), bnev))
+    validated += bvalidated
+    tstates += btstates
+    rejected = rejected + brejected
     rc = v.finish()
     vlib.write_evidence(run, {
+        "broker_level_scenarios": len(bscns), "broker_level_events": bnev,
         "traces_validated_against_impl": validated,
         "evaluations": nev - nscn,
         "distinct_nontrivial": len(scns),
@@ -108,7 +130,7 @@ def check(run):
         "samples": [scns[0], scns[len(scns) // 2]["table"], {"trace_excerpt": vlib.head_events(tpath, 4)}],
     }, ["user names containing ':' '\"' or newlines and duplicate user names are not generated (CSV quoting / ambiguous configuration)",
         "the file holds 'user:sha256hex(password)[:mountpoint]' as auth.FileHandler expects",
-        "broker-level observation (CONNACK code, no state after refusal) is validated by the node-harness part when present"],
+        "broker level: a sample of the tables is loaded into a real broker (auth.FileHandler behind the connection manager); CONNECTs carrying a will with every candidate credential must get CONNACK 0 and the entry's tenant iff admitted, CONNACK 5 otherwise, and a refused CONNECT leaves no session, subscription, registry entry or will (BrokerTrace)"],
         violations=v.n_new)
     run.log("validated %d tables, %d rejected (%d known)" % (validated, len(rejected), v.n_known))
     return rc
@@ -116,6 +138,8 @@ def check(run):
 
 def replay(run, path):
     rp = json.load(open(path))
+    if rp.get("kind") == "broker":
+        return brokerlib.replay(run, "C16", path)
     spath = os.path.join(run.scratch, "scenarios.ndjson")
     with open(spath, "w") as f:
         f.write(json.dumps(rp["scenario"]) + "\n")
